@@ -3,6 +3,7 @@
  * In-process against the library built from the current working tree.
  *
  *   distdrv corr     line protocol of lean/Drivers/DistMain.lean (doubles as IEEE bit patterns, hex16):
+ *       gboost <seed> <shape>  (see Drivers/GammaMain.lean) |
  *       seed <u64> | unit <N> | flip <N> | stdexp <N> | geom <N> <p> | dice <N> <a> <b> | bern <N> <p> | binom <N> <n> <p> |
  *       loaded <N> <p...> | alias <N> <p...>      -> one line per operation (alias: the table, then the samples)
  *   distdrv supp     support scan, summary only:
@@ -150,6 +151,19 @@ static void corr_line(char *line)
         printf("geom");
         for (unsigned long long i = 0; i < n; i++) printf(" %u", cmb_random_geometric(p[0]));
         printf("\n");
+    }
+    else if (strcmp(op, "gboost") == 0) {
+        /* gboost <seed> <shape bits>: cmb_random_std_gamma(shape) after the seed; then, after the same seed,
+         * cmb_random_std_gamma(shape + 1.0) and the cmb_random() that follows it */
+        double p[MAXP];
+        sscanf(line, "%*s %llu%n", &n, &off);
+        if (parse_bits(line + off, p) < 1) { printf("bad-op gboost\n"); return; }
+        cmb_random_initialize((uint64_t)n);
+        const double r = cmb_random_std_gamma(p[0]);
+        cmb_random_initialize((uint64_t)n);
+        const double g = cmb_random_std_gamma(p[0] + 1.0);
+        const double u = cmb_random();
+        printf("gboost %016" PRIx64 " %016" PRIx64 " %" PRIu64 "\n", dbits(r), dbits(g), (uint64_t)ldexp(u, 53));
     }
     else if (strcmp(op, "dice") == 0) {
         long a = 0, b = 0;
